@@ -1,7 +1,7 @@
 from contracts import history, primitives, useractions
 from ._common import TRUSTED_TRACKS, UA_ALL
 
-LEVEL = "proof"
+LEVEL = "other"
 TRUSTED = TRUSTED_TRACKS
 EXPLANATION = ("State invariant Forest (in-degree<=1, out-degree<=2, every node has a time, edges strictly forward) proved "
                "preserved by the real constructors of the user actions on a symbolic SolutionTracks (graphs of every size); "
@@ -18,3 +18,10 @@ def units(tier):
 def witness(label, failure, seed):
     from pyvc.native_bridge import tracks_witness
     return tracks_witness("C03", label, failure, seed)
+
+
+def bounded(tier, seed):
+    from pyvc.native_bridge import bounded_walk
+    return [bounded_walk(tier, "queries", "track-neighbour-queries",
+                         "real get_track_neighbors/has_track_id_at_time (whose contracts the proofs of UserAddNode/UserDeleteNode use) vs a scan "
+                         "of the graph, on canonical and time-reversed node numberings and with the lookup lists in every order")]
